@@ -4,7 +4,7 @@
    inversion lemma per parser function for strict = true, where optional_error never returns. *)
 From Coq Require Import Arith.
 From AV Require Import Base.Bytes Base.Outcome Base.Utf8 Base.Radix Hash.HashModel Spec.SpecOps Spec.Versions
-  Xml.Lexer Xml.Parser Xml.TablesOk Xml.ParserCheck Xml.ParserDepth Xml.StrictValidDef Xml.StrictValidSpec.
+  Xml.Lexer Xml.Parser Xml.LexerProofs Xml.TablesOk Xml.ParserCheck Xml.ParserDepth Xml.StrictValidDef Xml.StrictValidSpec.
 Open Scope list_scope.
 Open Scope N_scope.
 
@@ -387,6 +387,28 @@ Proof.
     as (VF & more & -> & CO & SN).
   cbn [app] in *. exists v401, an, rt, attributes, more, stored. rewrite V11, VF.
   split; [reflexivity|]. split; [reflexivity|]. split; [exact E8|]. split; [exact CO|exact SN].
+Qed.
+
+(* data after the root element: strict loading returns only when the lexer has reached the end of the input
+   (blank text and ignored processing instructions are not tokens) *)
+Theorem load_strict_consumed bs t st :
+  load true T tab_el tab_at tab_en check_fn float_parse bs = Val (Ret t st) ->
+  l_rest (p_lex st) = [] /\ l_deferred (p_lex st) = None.
+Proof.
+  unfold load.
+  destruct (version_of_ident "Autosar_4_0_1") as [v401|]; [|destruct (elem T (autosar_element T)); discriminate].
+  destruct (elem T (autosar_element T)) as [e|site|]; try discriminate.
+  unfold parse_arxml. intros H.
+  inv H as ev s1 E1. destruct ev; try discriminate H.
+  inv H as u2 s2 E2. inv H as tok s3 E3. inv H as r s4 E4. destruct r as [stored token].
+  destruct token; try discriminate H.
+  inv H as nm s5 E5. inv H as an s6 E6. destruct nm as [n0|]; [|discriminate H]. destruct (n0 =? an); [|discriminate H].
+  inv H as rt s7 E7. inv H as attributes s8 E8. inv H as u9 s9 E9. inv H as root s10 E10. inv H as u11 s11 E11.
+  injection H as _ <-. unfold verify_end_of_input in E11.
+  pose proof (next_spec (p_lex s10)) as SP.
+  destruct (next (p_lex s10)) as [[line ev l'|line er]| |]; try discriminate E11.
+  destruct ev; try (destruct (oe_strict_ret _ _ _ _ _ _ E11)).
+  injection E11 as _ <-. cbn [p_lex set_lex]. destruct SP as (_ & _ & EOFC & _). exact EOFC.
 Qed.
 
 End SV.
